@@ -1583,8 +1583,33 @@ type ZUnexported struct {
 	b string
 }
 
+// two struct types that share one Name() (local types of two functions)
+func siSameName1() interface{} {
+	type T struct{ A int32 }
+	return T{1}
+}
+func siSameName2() interface{} {
+	type T struct{ A, B int32 }
+	return T{2, 3}
+}
+
 func siC13(r *siReport) {
 	debug.SetMaxStack(256 << 20)
+	// two different struct types with one name in one stream: the encode call fails, or every instance carries as many
+	// values as the definition it names declares (known finding: the second type is written under the first one's definition)
+	{
+		v := []interface{}{siSameName1(), siSameName2(), "tail"}
+		bs, err := ToBytes(v, nil)
+		if err != nil {
+			r.ok("same-name-classes/list")
+		} else if out, derr := ToObject(bs, map[string]reflect.Type{"T": reflect.TypeOf(siSameName1())}); derr != nil {
+			r.fail("same-name-classes/list", "encode succeeded with bytes that do not decode: "+derr.Error())
+		} else if l, ok := out.([]interface{}); !ok || len(l) != 3 || l[2] != "tail" {
+			r.fail("same-name-classes/list", fmt.Sprintf("encode succeeded with % x, which decodes to %v", bs, out))
+		} else {
+			r.ok("same-name-classes/list")
+		}
+	}
 	cyc := map[string]interface{}{}
 	cyc["self"] = cyc
 	var cycIface interface{} = cyc
